@@ -895,8 +895,12 @@ class Association(threading.Thread):
             if "Status" in status:
                 # For the elements in the status dataset, try and set
                 #   the corresponding response primitive attribute
+                #   The message the response belongs to is fixed by the
+                #   request and isn't the handler's to change
                 for elem in status:
-                    if hasattr(rsp, elem.keyword):
+                    if elem.keyword != "MessageIDBeingRespondedTo" and hasattr(
+                        rsp, elem.keyword
+                    ):
                         setattr(rsp, elem.keyword, elem.value)
                     else:
                         LOGGER.warning(
